@@ -6,7 +6,8 @@ package base
 //
 //   exact     rounds in which one goroutine performs the rollover alone and then G goroutines record concurrently
 //             inside the bucket (no recorder overlaps the rollover of its own bucket): the window sum read afterwards
-//             must equal the recorded totals of the buckets inside the window, exactly
+//             must equal the recorded totals of the buckets inside the window, exactly (pass counts, and response
+//             times recorded in descending order so that every call also lowers the bucket's minimum)
 //   bounded   rounds in which all goroutines race across the bucket boundary (rollover included): the window sum
 //             must never exceed what was recorded with timestamps inside the window, no amount may show up in a
 //             bucket other than the one its timestamp selects, and every call returns
@@ -59,6 +60,7 @@ func TestVerifBounded(t *testing.T) {
 		bla := NewBucketLeapArray(2, 1000)
 		t0 := (util.CurrentTimeMillis()/1000 + 2) * 1000
 		recorded := map[uint64]int64{} // bucket start -> amount recorded with a timestamp inside that bucket
+		recordedRt := map[uint64]int64{} // bucket start -> response time recorded (descending values: every call lowers the minimum)
 		for r := 0; r < rounds; r++ {
 			cases++
 			start := t0 + uint64(r)*L
@@ -76,6 +78,7 @@ func TestVerifBounded(t *testing.T) {
 				go func(g int) {
 					defer wg.Done()
 					local := map[uint64]int64{}
+					localRt := map[uint64]int64{}
 					for i := 0; i < N; i++ {
 						ts := start + uint64((g*31+i*7)%int(L)) // somewhere inside this round's bucket
 						if mode == "bounded" && i%3 == 0 {
@@ -84,10 +87,18 @@ func TestVerifBounded(t *testing.T) {
 						amount := int64(1 + (g+i)%3)
 						bla.addCountWithTime(ts, base.MetricEventPass, amount)
 						local[ts-ts%L] += amount
+						if i%4 == 0 {
+							rt := int64(4*N - 4*i + g) // descending: each response time is a new minimum for its recorder
+							bla.addCountWithTime(ts, base.MetricEventRt, rt)
+							localRt[ts-ts%L] += rt
+						}
 					}
 					mu.Lock()
 					for k, v := range local {
 						recorded[k] += v
+					}
+					for k, v := range localRt {
+						recordedRt[k] += v
 					}
 					mu.Unlock()
 				}(g)
@@ -107,6 +118,13 @@ func TestVerifBounded(t *testing.T) {
 				}
 				if mode == "exact" && got != want {
 					fail("check=exact-sums round=%d: bucket %d reports %d, recorded %d, and no recorder overlapped its rollover", r, bw.BucketStart-t0, got, want)
+				}
+				gotRt, wantRt := mb.Get(base.MetricEventRt), recordedRt[bw.BucketStart]
+				if gotRt > wantRt {
+					fail("check=%s-never-more-than-recorded round=%d: bucket %d reports a response-time total of %d, only %d was recorded with its timestamps", mode, r, bw.BucketStart-t0, gotRt, wantRt)
+				}
+				if mode == "exact" && gotRt != wantRt {
+					fail("check=exact-sums round=%d: bucket %d reports a response-time total of %d, recorded %d, and no recorder overlapped its rollover", r, bw.BucketStart-t0, gotRt, wantRt)
 				}
 			}
 			if mode == "exact" {
